@@ -91,16 +91,18 @@ Definition prinz_run {K} (o : Ops K)
     Some (normalise o n (Nat.iter k (swp C Crs n) s0))
   else None.
 
-(* ---- the executable instance: exact rational arithmetic (kept in lowest terms); the square root
-        is the dyadic rational floor(sqrt(x) * 2^p) / 2^p, i.e. exact whenever sqrt(x) * 2^p is an
-        integer and otherwise below the true root by less than 2^-p *)
+(* ---- the executable instance: rationals in lowest terms; +, -, * are exact; quotients and square
+        roots are rounded down to a multiple of 2^-p (a dyadic rational within 2^-p of the exact
+        value, exact whenever the value is itself such a multiple), which keeps the numbers small *)
+Definition qround (p : positive) (x : Q) : Q := Qred ((Qnum x * 2 ^ Zpos p) / Zpos (Qden x) # (2 ^ p)).
+
 Definition qsqrt (p : positive) (x : Q) : Q :=
   if Qle_bool x 0 then 0
   else Qred (Z.sqrt ((Qnum x * 4 ^ Zpos p) / Zpos (Qden x)) # (2 ^ p)).
 
 Definition QOps (p : positive) : Ops Q :=
   mkOps Q (fun a b => Qred (a + b)) (fun a b => Qred (a - b)) (fun a b => Qred (a * b))
-        (fun a b => Qred (a / b)) (fun a => Qred (- a)) inject_Z (qsqrt p)
+        (fun a b => qround p (a / b)) (fun a => Qred (- a)) inject_Z (qsqrt p)
         (fun a b => negb (Qle_bool b a)) Qeq_bool.
 
 Definition mat_fun (M : list (list Q)) : nat -> nat -> Q := fun i j => nth j (nth i M []) 0.
